@@ -17,8 +17,14 @@ def base_constants():
 
 def runs(tier):
     r = []
-    c = base_constants()
-    r.append(("c02_edges", c, None))
+    # edge coverage: 3-D roots with extents <= 2 and 2-D roots with extents <= 3 (quick); all roots D <= 3, extents <= 3 (thorough)
+    if tier == "thorough":
+        r.append(("c02_edges", base_constants(), None))
+    else:
+        ca = base_constants(); ca.update({"MaxD": 3, "MaxExt": 2})
+        r.append(("c02_edges_d3e2", ca, None))
+        cb = base_constants(); cb.update({"MaxD": 2, "MaxExt": 3})
+        r.append(("c02_edges_d2e3", cb, None))
     # path coverage: every program of length <= 3 (no merging) on 2-D roots and their depth-1 views
     c2 = base_constants(); c2.update({"MaxD": 2, "MaxExt": 2, "Merge": False, "MaxProg": 2, "MaxN": 4})
     r.append(("c02_paths", c2, None))
@@ -177,7 +183,7 @@ def run(tier):
     missing = [o for o in need if per_op.get(o, 0) == 0]
     if missing:
         raise vlib.Broken("iterator operations never exercised: %s" % missing)
-    rep.assumptions = ["views: all roots D<=3, extents 0..3 and every view one operation away (two in thorough)",
+    rep.assumptions = ["views: roots D<=3 with extents 0..2 and D<=2 with extents 0..3 (thorough: D<=3, extents 0..3) and every view one operation away (two in thorough)",
                        "iterator programs over two registers, offsets in {-2..2} (quick), positions stay in [begin,end]"]
     return rep.finish(rule="each record = (view program, iterator kind, iterator program); TLC enumerates Iterators.tla; "
                       "edge runs merge programs reaching the same position pair, path runs keep every program; "
